@@ -1,6 +1,8 @@
 """C14  Covariance and modified-covariance AR fits are least-squares optimal."""
 import numpy as np
 
+import single
+
 import proto
 from common import gen_data, rel
 
@@ -108,6 +110,31 @@ def oracle_fit(p):
     return out
 
 
+def oracle_fit32(p):
+    """single-precision data: the returned coefficients must still be the least-squares fit of THESE samples (to single
+    precision): residual orthogonal to every regressor, returned error = the minimum"""
+    x32 = np.asarray(p["x"])
+    x = x32.astype(complex)
+    N, order = len(x), p["order"]
+    en = float(np.sum(np.abs(x) ** 2))
+    out = []
+    for name in ("arcovar", "modcovar"):
+        a, e = _fn(name)(x32, order)
+        a = c(a)
+        ef, eb = _resid(x, a, order)
+        g = [sum(ef[t - order] * np.conj(x[t - j - 1]) for t in range(order, N)) for j in range(order)]
+        emin = float(np.sum(np.abs(ef) ** 2))
+        if name == "modcovar":
+            g = [g[j] + sum(np.conj(eb[t - order]) * x[t - order + j + 1] for t in range(order, N)) for j in range(order)]
+            emin += float(np.sum(np.abs(eb) ** 2))
+        if max(abs(v) for v in g) / en > 1e-3:
+            out.append("%s on %s data: residual is not orthogonal to the regressors (%.2e): not the least-squares fit (N=%d order=%d)" % (
+                name, x32.dtype, max(abs(v) for v in g) / en, N, order))
+        if abs(e - emin) > 1e-3 * en:
+            out.append("%s on %s data: returned error %r is not the minimum %r" % (name, x32.dtype, e, emin))
+    return out
+
+
 def oracle_recover(p):
     sp = _sp()
     x = np.asarray(p["x"])
@@ -160,6 +187,9 @@ KINDS = {
             "nontrivial": lambda p: p["order"] >= 2},
     "fitm": {"impl": impl_fit, "model": model_fit, "rtol": 1e-5, "atol": 1e-9, "key": _key, "tags": _tags,
              "nontrivial": lambda p: p["order"] >= 2},
+    # single-precision input (float32 / complex64): the solvers then work in single precision
+    "fit32": {"impl": impl_fit, "model": model_fit, "oracle": oracle_fit32, "rtol": 2e-3, "atol": 1e-4, "key": _key,
+              "tags": lambda p: _tags(p) + ["dtype:%s" % np.asarray(p["x"]).dtype], "nontrivial": lambda p: p["order"] >= 2},
     "laws": {"oracle": oracle_fit, "key": _key, "tags": _tags, "nontrivial": lambda p: p["order"] >= 2},
     "overfit": {"oracle": oracle_overfit, "key": _key, "tags": lambda p: ["overfit:K=%d,p=%d" % (p["K"], p["order"])]},
     "recover": {"oracle": oracle_recover, "key": _key, "tags": lambda p: ["recover:%d" % p["order"]]},
@@ -172,7 +202,10 @@ def _cond_ok(x, order):
     return np.linalg.cond(X.conj().T @ X) <= 1e8
 
 
+KINDS["single"] = single.kind("C14")
+
 def gen(rng, nrng, tier):
+    yield from single.gen("C14", nrng, tier)
     n = 120 if tier == "quick" else 2000
     kinds = ["noise", "tone", "int", "trend"]
     fns = ["arcovar", "modcovar", "arcovarm", "modcovarm"]
@@ -188,6 +221,8 @@ def gen(rng, nrng, tier):
             continue
         fn = fns[i % 4]
         yield ("fitm" if fn.endswith("m") else "fit", {"x": x, "order": order, "fn": fn, "dkind": dk})
+        if (i // 4) % 3 == 0 and np.linalg.cond(np.asarray(__import__("spectrum").corrmtx(x, order, "covariance"))[:, 1:]) < 50:
+            yield ("fit32", {"x": x.astype(np.complex64 if cplx else np.float32), "order": order, "fn": fn, "dkind": dk})
     n2 = 60 if tier == "quick" else 900
     for i in range(n2):
         cplx = bool(nrng.integers(0, 2))
